@@ -122,6 +122,7 @@ impl Property for C05 {
         let regime = if t.p(96) { Regime::General } else { Regime::Dyadic };
         let mut cfg = InstCfg::new(regime);
         cfg.kinds.extend([4, 5]); // semi-integer, semi-continuous: "all variable kinds"
+        cfg.tolerance_candidates = true;
         // drawn before the instance so that short tapes still vary the class
         let class = t.weighted(&[5, 4, 3, 3, 6]);
         let inc = t.coin();
